@@ -270,7 +270,7 @@ class C12(Prop):
             '(default or a generated -f/-b), atoms from the C05 pattern generator against the vocabulary of a generated history; after every '
             'command every message of the history is evaluated against an accumulator model (alternatives, exclusions, star flag, constants) '
             'whose atoms are parsed independently; malformed text must be reported and change nothing. non-trivial = >= 3 accepted commands '
-            'with an exclusion and an alternative added in different steps and a result that is neither all nor none; distinct by SHA-1.')
+            'with an exclusion and an alternative added in different steps and a result that is neither all nor none; distinct by SHA-1. 40 % of the cases type their commands at the tool\'s own prompt (TerminalUI); 7 % repeat their commands 15-50 times.')
     assumptions = ['messages matched only by alternatives that a `*` absorbed are unspecified (skipped and counted)',
                    'matcher meaning of a single atom is C05\'s business (atoms are parsed independently)']
     stages = [Sequences()]
